@@ -12,6 +12,12 @@
 //!       signer:  SS | S<i> | G        signature over the quote's own signing bytes by this node / key i, or garbage
 //!       content: c<j>                 content address j;   offset: timestamp = base + offset (base = clock at start)
 //!       -> `none` (nothing sent) | `fwd=-` (an empty list sent) | `fwd=<i,j,..>` (0-based positions of the quotes passed on)
+//!   getquote <kind> <j> <answer> <paid> <live>    `Node::handle_query(Query::GetStoreQuote { key, nonce: None, .. })`, the arm a client's
+//!       fetch reaches; the harness plays the swarm driver for `GetLocalQuotingMetrics`
+//!       kind:   c chunk | r register | s scratchpad | t transaction | p a peer id | k a raw record key   (address number j)
+//!       answer: q (metrics with the given paid / live, record not stored) | e (record already stored) | d (no answer)
+//!       -> `exists` | `failed` | `quote content=<own|zero|other> signed=<b> metrics=<b> storecost=<b>`, each followed by
+//!          ` peer=<self|other>` (the response's peer_address);  own = the address's XorName, zero = XorName(0…0)
 //! Only the expiry test of the node's own quote reads the clock; its age is kept ≥ 10 min away from the one-hour window.
 use ant_evm::{PaymentQuote, QuotingMetrics, RewardsAddress};
 use ant_networking::verif::{LocalSwarmCmd, NetworkSwarmCmd};
@@ -108,6 +114,92 @@ impl H {
                 let storecost = hook::verify_quote_for_storecost(&self.network, q, &addr);
                 Some(format!("signed={signed} fields={fields} fresh={fresh} storecost={storecost}"))
             }
+            "getquote" if ws.len() == 6 => {
+                let j: u64 = ws[2].parse().ok()?;
+                let name = content(j);
+                let bls_pk = {
+                    let mut b = [0u8; 32];
+                    b[31] = (j % 200) as u8 + 1;
+                    b[0] = 0x21;
+                    bls::SecretKey::from_bytes(b).ok()?.public_key()
+                };
+                let (addr, own): (NetworkAddress, Option<XorName>) = match ws[1] {
+                    "c" => (NetworkAddress::from_chunk_address(ChunkAddress::new(name)), Some(name)),
+                    "r" => {
+                        let a = ant_registers::RegisterAddress::new(name, bls_pk);
+                        (NetworkAddress::from_register_address(a), Some(a.xorname()))
+                    }
+                    "s" => {
+                        let a = ant_protocol::storage::ScratchpadAddress::new(bls_pk);
+                        (NetworkAddress::from_scratchpad_address(a), Some(a.xorname()))
+                    }
+                    "t" => {
+                        let a = ant_protocol::storage::TransactionAddress::new(name);
+                        (NetworkAddress::from_transaction_address(a), Some(*a.xorname()))
+                    }
+                    "p" => (NetworkAddress::from_peer(PeerId::from(keypair(j % NKEYS).public())), None),
+                    "k" => (NetworkAddress::from_record_key(&NetworkAddress::from_chunk_address(ChunkAddress::new(name)).to_record_key()), None),
+                    _ => return None,
+                };
+                let metrics = QuotingMetrics {
+                    close_records_stored: 3,
+                    max_records: 16384,
+                    received_payment_count: ws[4].parse().ok()?,
+                    live_time: ws[5].parse().ok()?,
+                    network_density: None,
+                    network_size: Some(7),
+                };
+                let answer = ws[3];
+                if !["q", "e", "d"].contains(&answer) {
+                    return None;
+                }
+                let rewards = RewardsAddress::from([0x33u8; 20]);
+                let network = self.network.clone();
+                let query = ant_protocol::messages::Query::GetStoreQuote { key: addr.clone(), nonce: None, difficulty: 0 };
+                let local_rx = &mut self.local_rx;
+                let m2 = metrics.clone();
+                let resp = self.rt.block_on(async move {
+                    let fut = hook::VerifNode::handle_query(&network, query, rewards);
+                    tokio::pin!(fut);
+                    for _ in 0..10_000 {
+                        if let std::task::Poll::Ready(r) = futures::poll!(&mut fut) {
+                            return Some(r);
+                        }
+                        tokio::task::yield_now().await;
+                        while let Ok(cmd) = local_rx.try_recv() {
+                            if let LocalSwarmCmd::GetLocalQuotingMetrics { sender, .. } = cmd {
+                                match answer {
+                                    "q" => drop(sender.send((m2.clone(), false))),
+                                    "e" => drop(sender.send((m2.clone(), true))),
+                                    _ => drop(sender),
+                                }
+                            }
+                        }
+                    }
+                    None
+                })?;
+                let ant_protocol::messages::Response::Query(ant_protocol::messages::QueryResponse::GetStoreQuote { quote, peer_address, storage_proofs }) = resp else {
+                    return Some("other-response".into());
+                };
+                let peer = if peer_address == NetworkAddress::from_peer(self.network.peer_id()) && storage_proofs.is_empty() { "self" } else { "other" };
+                Some(match quote {
+                    Err(ant_protocol::error::Error::RecordExists(_)) => format!("exists peer={peer}"),
+                    Err(_) => format!("failed peer={peer}"),
+                    Ok(q) => {
+                        let c = if Some(q.content) == own {
+                            "own"
+                        } else if q.content == XorName::default() {
+                            "zero"
+                        } else {
+                            "other"
+                        };
+                        let signed = q.check_is_signed_by_claimed_peer(self.network.peer_id()) && q.pub_key == self.network.get_pub_key();
+                        let m = q.quoting_metrics == metrics && q.rewards_address == rewards && !q.has_expired();
+                        let storecost = hook::verify_quote_for_storecost(&self.network, q, &addr);
+                        format!("quote content={c} signed={signed} metrics={m} storecost={storecost} peer={peer}")
+                    }
+                })
+            }
             "duty" if ws.len() > 1 && (ws.len() - 1) % 5 == 0 => {
                 let mut quotes = vec![];
                 for e in ws[1..].chunks(5) {
@@ -169,6 +261,24 @@ fn oracle(line: &str, res: &str, out: &mut Out) {
     if ws[0] == "create" {
         if res != "signed=true fields=true fresh=true storecost=true" {
             out.oracle_fail("created-quote-is-signed-by-the-node-over-the-given-fields", line, &format!("got `{res}`"));
+        }
+        return;
+    }
+    if ws[0] == "getquote" && res != "bad-op" {
+        // the node answers under its own address; a quote is the node's own, over the metrics its store reported; for an
+        // address that names data the quote is for that address's name. (For a peer id / raw record key there is no name:
+        // the node signs a quote for XorName(0…0) — an observation, counted, not a clause of C13.)
+        let named = ["c", "r", "s", "t"].contains(&ws[1]);
+        let want = match ws[3] {
+            "e" => "exists peer=self".to_string(),
+            "d" => "failed peer=self".to_string(),
+            _ => format!("quote content={} signed=true metrics=true storecost=true peer=self", if named { "own" } else { "zero" }),
+        };
+        if res != want && !(ws[3] == "q" && !named && res.starts_with("quote content=") && res.ends_with("signed=true metrics=true storecost=true peer=self")) {
+            out.oracle_fail("get-store-quote-answers-with-own-signed-quote-for-the-address", line, &format!("got `{res}`, expected `{want}`"));
+        }
+        if res.starts_with("quote content=zero") {
+            out.count("getquote:signed-quote-for-the-zero-name");
         }
         return;
     }
@@ -244,7 +354,16 @@ fn main() {
         v.push(format!("duty P1 K1 S1 c0 {} P2 K2 S2 c0 {}", -60 * S, -55 * S));
         v.push(format!("duty S KS SS c0 {} P1 K1 S1 c0 {}", -4300 * S, -4300 * S));
         v.push(format!("duty S KS S1 c0 {} P1 K1 S1 c0 {}", -60 * S, -60 * S));
+        for k in ["c", "r", "s", "t", "p", "k"] {
+            v.push(format!("getquote {k} 1 q 3 4"));
+        }
+        v.push("getquote c 2 e 3 4".into());
+        v.push("getquote p 2 d 3 4".into());
         for _ in 0..args.n {
+            if rng.chance(1, 12) {
+                v.push(format!("getquote {} {} {} {} {}", rng.pick(&["c", "r", "s", "t", "p", "k"]), rng.below(50), rng.pick(&["q", "q", "q", "e", "d"]), rng.below(100000), rng.below(100000)));
+                continue;
+            }
             if rng.chance(1, 6) {
                 let mut c = [0u8; 32];
                 c.copy_from_slice(&rng.bytes(32));
@@ -291,7 +410,7 @@ fn main() {
             }
         };
         oracle(l, &res, &mut out);
-        let class = if l.starts_with("create") { "create".to_string() } else { format!("duty:{}", if res == "none" { "none" } else if res == "fwd=-" { "empty" } else { "forwarded" }) };
+        let class = if l.starts_with("getquote") { format!("getquote:{}:{}", l.split_whitespace().nth(1).unwrap_or("?"), res.split_whitespace().take(2).collect::<Vec<_>>().join("-")) } else if l.starts_with("create") { "create".to_string() } else { format!("duty:{}", if res == "none" { "none" } else if res == "fwd=-" { "empty" } else { "forwarded" }) };
         out.count(&class);
         out.nontrivial_case(l);
         out.line(l.clone(), res);
